@@ -87,14 +87,13 @@ Section Sound.
   Definition update_position (s : ssound) : outcome ssound :=
     let! s := push_frame_to_resampler s in
     let! t := (if is_playing_backwards s then decrement_position fuel (s_tr s)
-               else let! n := num_frames (s_src s) (s_slice s) in
-                    increment_position fuel (s_tr s) n) in
+               else increment_position fuel (s_tr s) (num_frames (s_src s) (s_slice s))) in
     let s := set_tr s t in
     if negb (t_playing (s_tr s)) && resampler_empty (s_rs s) then Ok (mark_stopped s) else Ok s.
 
   (** [StaticSound::seek_to_index] *)
   Definition seek_to_index (s : ssound) (index : Z) : outcome ssound :=
-    let! n := num_frames (s_src s) (s_slice s) in
+    let n := num_frames (s_src s) (s_slice s) in
     let! t := transport_seek_to fuel (s_tr s) index n in
     let s := set_tr s t in
     if is_advancing s then push_frame_to_resampler s else Ok s.
@@ -113,9 +112,9 @@ Section Sound.
   Definition sound_init (d : sdata) : outcome ssound :=
     let st := d_settings d in
     let start := into_samples (st_start st) (d_sr d) in
-    let! n := num_frames (d_src d) (d_slice d) in
+    let n := num_frames (d_src d) (d_slice d) in
     let lr := option_map (fun r => region_samples r (d_sr d) n) (st_loop st) in
-    let! t := transport_new start lr (st_reverse st) n in
+    let t := transport_new start lr (st_reverse st) n in
     let starting_frame_index := t_pos t in
     let position := ndiv (nofZ starting_frame_index) (nofZ (d_sr d)) in
     Ok {| s_sr := d_sr d; s_src := d_src d; s_slice := d_slice d; s_reverse := st_reverse st;
@@ -150,7 +149,7 @@ Section Sound.
              | None => s end in
     let! s := match c_loop c with
               | Some lr =>
-                  let! n := num_frames (s_src s) (s_slice s) in
+                  let n := num_frames (s_src s) (s_slice s) in
                   Ok (set_tr s (transport_set_loop_region (s_tr s)
                                   (option_map (fun r => region_samples r (s_sr s) n) lr)))
               | None => Ok s end in
